@@ -158,6 +158,11 @@ package x509
 //@ may panic
 //@ requires in != nil
 //@ site store:UnhandledCriticalExtensions#1 as unh
+//@ site store:KeyUsage#1 as ku
+//@ site At#1 as bit
+//@ loop 2 invariant 0 <= i && i <= 9 && 0 <= usage && usage < (1 << uint64(i))
+//@ at bit assert [each-of-the-nine-key-usage-bits-is-read-in-turn] bit.i == i && 0 <= i && i < 9
+//@ at ku assert [the-key-usage-stored-is-made-of-all-nine-bits] i == 9 && 0 <= usage && usage < 512
 //@ at unh assert [a-san-with-any-parsed-name-is-handled] len(e.Id) == 4 && e.Id[0] == 2 && e.Id[1] == 5 && e.Id[2] == 29 && e.Id[3] == 17 ==> len(out.DNSNames) == 0 && len(out.EmailAddresses) == 0 && len(out.IPAddresses) == 0 && len(out.URIs) == 0
 //@ at unh assert [only-critical-extensions-are-recorded-as-unhandled] e.Critical
 //@ fresh result0
